@@ -15,8 +15,9 @@ structure RSet where
 def masterOnly (T : Tables) (disableSlave : Bool) (ty : Nat) : Bool :=
   disableSlave || decide (ty > T.cWriteStart) || decide (ty = T.cHscan) || decide (ty = T.cSscan) || decide (ty = T.cZscan)
 
-/-- the candidate list handed to the random pick: the replicas that have a pool
-    (a pool flagged by the auto-ban is picked up again and its flag cleared) -/
+/-- the candidate list handed to the random pick: the replicas that are candidates - `hasPool a` stands for
+    "a has a pool and is not skipped by the auto-ban" (a banned pool whose lift time has passed is skipped until the
+    monitor clears the flag; one whose lift time is still ahead is picked up again and its flag cleared) -/
 def candidates (hasPool : Bytes → Bool) (rs : RSet) : List Bytes := rs.slaves.filter hasPool
 
 /-- `route`: (address, isSlave) -/
